@@ -701,15 +701,16 @@ def dependent_lt_is_antisymmetric(ctx):
                     continue
                 if ab and ba and bad is None:
                     bad = (a, b)
-                if ab and len(a) == len(b) and any(x is ANY and y is not ANY for x, y in zip(a, b)) and wider is None:
+                crossing = len(a) == len(b) and any(x is ANY and y is not ANY for x, y in zip(a, b)) and any(y is ANY and x is not ANY for x, y in zip(a, b))
+                if (ab or ba) and crossing and wider is None:
                     wider = (a, b)
         show = lambda v: "(" + ", ".join("Any" if x is ANY else x for x in v) + ")"  # noqa: E731
         ctx.ob(
-            f"{m.key}:narrower-everywhere",
+            f"{m.key}:crossing-patterns-unordered",
             m.loc(),
-            f"`{c.name}.__lt__` holds only when the left pattern is nowhere more general than the right one (a wildcard on the left against a fixed parameter on the right rules it out; {cnt} parameter pairs interpreted)",
+            f"`{c.name}.__lt__` leaves two patterns unordered when each has a wildcard where the other is fixed ({cnt} parameter pairs interpreted)",
             wider is None,
-            f"parameters {show(wider[0])} < {show(wider[1])} holds although the left pattern has a wildcard where the right one is fixed: the two accept values the other rejects, yet one is preferred, so a value satisfying both runs one method silently instead of raising the ambiguity error" if wider else "",
+            f"parameters {show(wider[0])} and {show(wider[1])} are ordered although each has a wildcard where the other is fixed: each accepts values the other rejects, yet one is preferred, so a value satisfying both runs one method silently instead of raising the ambiguity error" if wider else "",
         )
         ctx.ob(
             f"{m.key}:antisymmetric",
@@ -1896,3 +1897,21 @@ def signature_describes_the_method(ctx):
     from . import sigexec
 
     sigexec.law(ctx, "positions", "counts", "types", "is-method", "rejects-varargs")
+
+
+# ---------------------------------------------------------------------------------------- the call without arguments
+def call_without_arguments(ctx):
+    """Registration and the lookup of the empty key, interpreted: a method whose parameters all have defaults accepts
+    the call without arguments (see missexec.check_empty_call)."""
+    from . import missexec
+
+    reg, out = missexec.check_empty_call(ctx)
+    ctx.touch(reg)
+    for name, problem in out.items():
+        ctx.ob(
+            f"{reg.key}:empty-call:{name}",
+            reg.loc(),
+            f"[{name}] a call without arguments reaches the method exactly when none of its parameters is required (registration and lookup of the empty key interpreted)",
+            problem is None,
+            (problem or "") + ": `f()` is rejected with 'No method ... for argument types []' where calling the method directly would use its defaults",
+        )
